@@ -157,6 +157,7 @@ class Scheduler:
         self.preemptions = 0
         self.inventory_at_end = None
         self.on_quiesce = None
+        self.atomic_depth = 0     # >0: no pre-emption at line events (instrumented atomic sections)
 
     # -- logging ---------------------------------------------------------------------------
     def ev(self, kind, info=None):
@@ -307,7 +308,7 @@ class Scheduler:
         return None
 
     def _local_trace(self, frame, event, arg):
-        if event == 'line' and not self.aborting:
+        if event == 'line' and not self.aborting and self.atomic_depth == 0:
             me = self.current
             if me is not None and me.real is real_threading.current_thread():
                 if self.trace_filter is None or \
